@@ -259,3 +259,20 @@ mod tests {
         assert!(decode_exact(&[0xb9, 0x00, 0x38]).is_err());
     }
 }
+
+/// Top-level elements of a list item (framing checked one level deep only): (is_list, raw, payload)
+pub fn list_elems(buf: &[u8]) -> Option<Vec<(bool, Vec<u8>, Vec<u8>)>> {
+    let (l, hl, pl) = header_at(buf).ok()?;
+    if !l {
+        return None;
+    }
+    let p = &buf[hl..hl + pl];
+    let mut out = Vec::new();
+    let mut off = 0;
+    while off < p.len() {
+        let (il, h, n) = header_at(&p[off..]).ok()?;
+        out.push((il, p[off..off + h + n].to_vec(), p[off + h..off + h + n].to_vec()));
+        off += h + n;
+    }
+    Some(out)
+}
